@@ -70,6 +70,12 @@ pub struct Interpreter<TStdlib: Stdlib, TStdIn: Input, TStdOut: Printer, TLpt1: 
     /// Holds addresses to RETURN to after a GOSUB
     go_sub_address_stack: Vec<usize>,
 
+    /// For every pending GOSUB, the heights of the register stack and of the
+    /// value stack at the time of the GOSUB: a RETURN executed inside a FOR loop
+    /// or a SELECT CASE block of the routine must not leave the loop's register
+    /// frame or the selector behind
+    go_sub_marks: Vec<(usize, usize)>,
+
     /// Holds the current call stack
     stacktrace: Vec<Position>,
 
@@ -294,6 +300,7 @@ impl<TStdlib: Stdlib, TStdIn: Input, TStdOut: Printer, TLpt1: Printer>
             return_marks: vec![],
             saved_print_states: vec![],
             go_sub_address_stack: vec![],
+            go_sub_marks: vec![],
             register_stack: vec![Registers::new()],
             stacktrace: vec![],
             file_manager: FileManager::new(),
@@ -487,6 +494,7 @@ impl<TStdlib: Stdlib, TStdIn: Input, TStdOut: Printer, TLpt1: Printer>
                 if let Some((registers, go_subs)) = self.return_marks.pop() {
                     self.register_stack.truncate(registers);
                     self.go_sub_address_stack.truncate(go_subs);
+                    self.go_sub_marks.truncate(go_subs);
                 }
                 if let Some(print_state) = self.saved_print_states.pop() {
                     self.print_state = print_state;
@@ -495,10 +503,18 @@ impl<TStdlib: Stdlib, TStdIn: Input, TStdOut: Printer, TLpt1: Printer>
             }
             Instruction::GoSub(address_or_label) => {
                 self.go_sub_address_stack.push(i);
+                self.go_sub_marks
+                    .push((self.register_stack.len(), self.value_stack.len()));
                 ctx.opt_next_index = Some(address_or_label.address());
             }
             Instruction::Return(opt_address) => match self.go_sub_address_stack.pop() {
                 Some(address) => {
+                    // the FOR loops and SELECT CASE blocks of the routine that the
+                    // RETURN leaves
+                    if let Some((registers, values)) = self.go_sub_marks.pop() {
+                        self.register_stack.truncate(registers);
+                        self.value_stack.truncate(values);
+                    }
                     ctx.opt_next_index = Some(match opt_address {
                         Some(address_or_label) => address_or_label.address(),
                         _ => address + 1,
@@ -535,6 +551,7 @@ impl<TStdlib: Stdlib, TStdIn: Input, TStdOut: Printer, TLpt1: Printer>
                 if let Some((registers, go_subs)) = self.return_marks.first().copied() {
                     self.register_stack.truncate(registers);
                     self.go_sub_address_stack.truncate(go_subs);
+                    self.go_sub_marks.truncate(go_subs);
                 }
                 self.return_marks.clear();
                 self.saved_print_states.clear();
